@@ -7,15 +7,15 @@ import (
 // Mutator kinds of DESIGN section 5. A kind maps a position of an artefact to zero
 // or more mutants; positions are cut into ranges, one range per case.
 const (
-	kTrunc = iota // data[:i], i < len (the identity is excluded)
-	kXor01        // data[i] ^= 0x01
-	kXor80        // data[i] ^= 0x80
-	kSet00        // data[i] = 0x00 (skipped where it already is)
-	kSetFF        // data[i] = 0xFF (skipped where it already is)
-	kDER          // DER-aware edits at node i
-	kTiny         // empty and 1-3 byte inputs (position = index into the fixed list)
-	kCross        // every other artefact of the world, unmodified (type confusion)
-	kSplice       // seeded random splices
+	kTrunc  = iota // data[:i], i < len (the identity is excluded)
+	kXor01         // data[i] ^= 0x01
+	kXor80         // data[i] ^= 0x80
+	kSet00         // data[i] = 0x00 (skipped where it already is)
+	kSetFF         // data[i] = 0xFF (skipped where it already is)
+	kDER           // DER-aware edits at node i
+	kTiny          // empty and 1-3 byte inputs (position = index into the fixed list)
+	kCross         // every other artefact of the world, unmodified (type confusion)
+	kSplice        // seeded random splices
 	nKinds
 )
 
